@@ -156,6 +156,9 @@ def check(case):
                 ok0, r0 = res.lib("jvp_at_zero_state", lambda: jax.jvp(S, (z0,), (jt,)), key=k + ":jvp_zero_state")
                 if ok0:
                     res.true("jvp_finite_at_zero_state", bool(np.all(np.isfinite(np.asarray(r0[1])))), key=k + ":jvp_finite_zero_state", msg="NaN/inf in forward derivative at u = 0")
+                    if fam in LINEAR:
+                        St0 = np.asarray(S(jt))
+                        res.claim("linear:jacobian_at_zero_state_is_the_map", float(np.max(np.abs(np.asarray(r0[1]) - St0))), 1e-11 * (float(np.max(np.abs(St0))) + 1e-300), key=k + ":linear")
                 ok0, v0 = res.lib("vjp_at_zero_state", lambda: jax.vjp(S, z0)[1](jw)[0], key=k + ":vjp_zero_state")
                 if ok0:
                     res.true("vjp_finite_at_zero_state", bool(np.all(np.isfinite(np.asarray(v0)))), key=k + ":vjp_finite_zero_state", msg="NaN/inf in reverse derivative at u = 0")
@@ -188,12 +191,22 @@ def p_strata(tier):
                 dims = configs.family_info(f)[1]
                 D = dims[(ci + j) % len(dims)]
                 out.append(dict(id="%s-D%d" % (f, D), fam=f, D=D, N=ns[D][(ci + j) % 2]))
-        return out
+        return _with_real_symbol(out, tier)
     for f in configs.ALL_FAMILIES:
         cls, dims = configs.family_info(f)
         for D in dims:
             i += 1
             out.append(dict(id="%s-D%d" % (f, D), fam=f, D=D, N=ns[D][i % 2]))
+    return _with_real_symbol(out, tier)
+
+
+def _with_real_symbol(out, tier):
+    ns = {1: [8, 9], 2: [6, 7], 3: [5, 6]}
+    fams = REAL_SYMBOL_FAMS if tier != "quick" else REAL_SYMBOL_FAMS[::2] + REAL_SYMBOL_FAMS[1:2]
+    for j, f in enumerate(fams):
+        dims = configs.family_info(f)[1]
+        D = dims[j % len(dims)]
+        out.append(dict(id="%s-D%d-real_symbol" % (f, D), fam=f, D=D, N=ns[D][j % 2], real_symbol=True))
     return out
 
 
@@ -201,8 +214,30 @@ def p_frames(stratum, tier):
     return list(range(7))
 
 
+REAL_SYMBOL_FAMS = ["GenConv_mn", "GenConv_sc", "GenNonlin", "GenPoly", "GenGradNorm", "KdV_mnad", "KdV_scAD", "GenVort", "NormConv_mn", "DiffNonlin"]
+
+
 def p_strategy(stratum, tier, frame):
     f, D, N = stratum["fam"], stratum["D"], stratum["N"]
+    if stratum.get("real_symbol"):
+        # structured stratum: the purely real symbol (all odd-order coefficients exactly 0, dispersivity = 0) for every
+        # order (frame -> order), differentiated w.r.t. one of the zeroed odd-order coefficients
+        return st.fixed_dictionaries(
+            dict(
+                fam=st.just(f),
+                spec=configs.st_spec(f, D, N, orders=(0, 1, 2, 3, 4), dt=gens.log_floats(1e-3, 0.1)),
+                seed=gens.st_seed(),
+                which=st.just(0),
+                target=st.just("odd_order_coefficient"),
+                sk=st.sampled_from(["white_mean", "white"]),
+                n=st.sampled_from([1, 1, 3]),
+                zero_comp=st.just("odd"),
+                zero_scalar=st.just(True),
+                order_pick=st.just([2, 1, 3, 4, 2, 1, 2][frame % 7]),
+                force_order=st.just(True),
+                single_direction=st.just(True),
+            )
+        )
     return st.fixed_dictionaries(
         dict(
             fam=st.just(f),
@@ -212,7 +247,9 @@ def p_strategy(stratum, tier, frame):
             sk=st.sampled_from(["white_mean", "white", "const"]),
             n=st.sampled_from([1, 1, 3]),
             # coefficient lists with one entry exactly 0.0 (the library defaults, e.g. (0, -1, 0), contain zeros)
-            zero_comp=st.sampled_from([None, 1, None, 0, 2]),
+            zero_comp=st.sampled_from([None, 1, "odd", None, 0, 2, "odd"]),
+            zero_scalar=st.sampled_from([False, False, True]),
+            order_pick=st.integers(0, 4),
         )
     )
 
@@ -226,10 +263,20 @@ def p_check(case):
     C = model.num_channels(spec)
     # the property lists dt and the PDE coefficients; domain_extent is not among them
     names = [x for x in sweepables(spec) if x != "domain_extent"]
-    if case["which"] >= len(names):
+    if not names:
         res.tag("no_such_parameter")
         return res
-    name = names[case["which"]]
+    name = names[case["which"] % len(names)]  # frames beyond the number of parameters revisit them with new draws
+    if case.get("target") == "odd_order_coefficient":
+        tn = [x for x in names if x in ("linear_coefficients", "normalized_linear_coefficients", "linear_difficulties", "dispersivity")]
+        if not tn:
+            res.tag("no_such_parameter")
+            return res
+        name = tn[0]
+        if case.get("force_order") and "order" in spec["kw"]:
+            spec = dict(spec, kw=dict(spec["kw"], order=int(case["order_pick"])))
+        if "dispersivity" in spec["kw"]:
+            spec = dict(spec, kw=dict(spec["kw"], dispersivity=0.0))
     p = model.order_of(spec)
     res.tag(case["fam"], "D%d" % D, "order%d" % p, "param:" + name, case["sk"])
     shape = (C,) + (N,) * D
@@ -241,9 +288,22 @@ def p_check(case):
     elif name == "domain_extent":
         base = np.asarray(spec["L"], dtype=float)
     else:
+        if case.get("zero_scalar") and isinstance(spec["kw"][name], float) and any(x in name for x in ("dispers", "veloc", "drag", "convection")):
+            # differentiating AT the value 0 (no dispersion, no drag, ...), where the symbol may become purely real
+            spec = dict(spec, kw=dict(spec["kw"], **{name: 0.0}))
+            res.tag("scalar_exactly_zero")
         if name in TUPLE_PARAMS and case.get("zero_comp") is not None and len(spec["kw"][name]) > 1:
             lst = list(spec["kw"][name])
-            lst[case["zero_comp"] % len(lst)] = 0.0
+            if case["zero_comp"] == "odd":
+                # all odd-order entries zero: a purely real symbol (the library default (0, 0, 0.01) is of this kind);
+                # the real/complex distinction matters inside the ETDRK coefficient routines, so the order is drawn
+                # again with the default order 2 twice as likely
+                for j_ in range(1, len(lst), 2):
+                    lst[j_] = 0.0
+                if "order" in spec["kw"] and case.get("order_pick") is not None and not case.get("force_order"):
+                    spec = dict(spec, kw=dict(spec["kw"], order=[2, 1, 2, 3, 4][case["order_pick"] % 5]))
+            else:
+                lst[case["zero_comp"] % len(lst)] = 0.0
             spec = dict(spec, kw=dict(spec["kw"], **{name: type(spec["kw"][name])(lst)}))
             res.tag("list_entry_exactly_zero")
         base = np.asarray(spec["kw"][name], dtype=float)
@@ -274,11 +334,24 @@ def p_check(case):
     # direction scaled per component (coefficients of different derivative orders differ by many decades):
     # a step h along dv changes every component by about h relative to its own size
     comp = np.maximum(np.abs(base), 1e-3 * max(float(np.max(np.abs(base))), 1e-12)) if base.ndim else np.asarray(max(abs(float(base)), 0.1))
+    if base.ndim and name == "linear_coefficients" and cls not in reg.NO_L_DT:
+        # zero entries of a linear coefficient list (no advection: a_1 = 0, no dispersion: a_3 = 0 are the usual
+        # values): perturbed so that their contribution to lambda*dt at the highest wavenumber is 0.1
+        Lz, dtz = reg.eff_L_dt(spec)
+        kmx = 2 * math.pi / Lz * (N // 2)
+        comp = np.where(base == 0, 0.1 / (np.maximum(kmx, 1e-300) ** np.arange(base.shape[0]) * abs(dtz)), comp)
     if base.ndim and any(x in name for x in ("nonlinear", "polynomial")):
         # scales of nonlinear terms are of one physical order: entries that are exactly zero (library defaults such as
         # (0, -1, 0)) are perturbed as strongly as the others, so that a derivative that ignores them is visible
         comp = np.where(base == 0, 0.3 * max(float(np.max(np.abs(base))), 0.1), comp)
     dv = (rng.standard_normal(base.shape) * comp) if base.ndim else comp
+    if base.ndim == 1 and base.shape[0] > 1 and case.get("single_direction", case["seed"] % 2 == 0):
+        # one coefficient at a time (a wrong derivative w.r.t. one entry is not masked by the size of the others);
+        # lists made purely even-order: one of the zeroed odd entries
+        cand = [j_ for j_ in range(base.shape[0]) if (case.get("zero_comp") != "odd" or j_ % 2 == 1)] or list(range(base.shape[0]))
+        j1 = cand[(case["seed"] // 2) % len(cand)]
+        dv = np.where(np.arange(base.shape[0]) == j1, comp, 0.0)
+        res.tag("single_entry_direction")
     jb, jd = jnp.asarray(base), jnp.asarray(dv)
     ok, r = res.lib("jvp_param", lambda: jax.jvp(f, (jb,), (jd,)), key=k + ":jvp")
     Jd = None
